@@ -63,10 +63,11 @@ def one_point(args):
         # the same point on a RE-USED object: solved before for another refrigerant at another operating point, sets requested
         other = "ammonia" if fluid != "ammonia" else "R134a"
         c2 = SimpleHeatPumpCycle()
-        c2.solve(Te=5.0, Tc=40.0, dT_sh=2.0, dT_sc=1.0, eta_comp=0.8, refrigerant=other, ihx_gas_dt=0.0, Q_h_total=3.0 * Q)
+        # (the earlier solve uses an internal heat exchanger: nothing of it may survive into the later solve without one)
+        c2.solve(Te=5.0, Tc=40.0, dT_sh=2.0, dT_sc=1.0, eta_comp=0.8, refrigerant=other, ihx_gas_dt=(15.0 if idx % 2 else 0.0), Q_h_total=3.0 * Q)
         c2.build_stream_collection(include_cond=True, include_evap=(idx % 2 == 0))
         if idx % 3 == 0:      # ... and once more at another point of the same refrigerant
-            c2.solve(Te=Te - 2.0, Tc=Tc + 1.0, dT_sh=sh, dT_sc=0.0, eta_comp=0.6, refrigerant=fluid, ihx_gas_dt=0.0, Q_h_total=2.0 * Q)
+            c2.solve(Te=Te - 2.0, Tc=Tc + 1.0, dT_sh=sh, dT_sc=0.0, eta_comp=0.6, refrigerant=fluid, ihx_gas_dt=40.0, Q_h_total=2.0 * Q)
         c2.solve(Te=Te, Tc=Tc, dT_sh=sh, dT_sc=sc, eta_comp=eta, refrigerant=fluid, ihx_gas_dt=0.0, Q_h_total=Q)
         col = c2.build_stream_collection(include_cond=True, include_evap=True)
         hot = [s for s in col._streams.values() if s.name.startswith("Condenser")]
